@@ -6,6 +6,7 @@ package cemi
 
 import (
 	"fmt"
+	"io"
 
 	"github.com/vapourismo/knx-go/knx/util"
 )
@@ -101,6 +102,10 @@ func (info *Info) Unpack(data []byte) (n uint, err error) {
 	}
 
 	if length > 0 {
+		if uint(len(data)) < n+uint(length) {
+			return n, io.ErrUnexpectedEOF
+		}
+
 		buf := make([]byte, length)
 		n += uint(copy(buf, data[n:n+uint(length)]))
 		*info = Info(buf)
